@@ -103,6 +103,16 @@ Theorem C13_last_write_is_final_state : forall (es : list (ev bytes)) (s : store
   nostamp (List.last (writes_of (run_trace s alive es)) d0) = nostamp (doc (final_of s (run_trace s alive es))).
 Proof. exact (@last_write_is_final_state bytes). Qed.
 
+(* ---- SLOW WRITES.  Cache.Write is called synchronously inside the locked step, and the step ends
+   only when it has returned: the n-th document to LAND in the cache is the n-th document OFFERED
+   (C13_writes_are_state_docs is about the offered ones), however long a write takes.  Hence,
+   writes succeeding, the cache content at rest after any run is the LAST document offered; with
+   C13_last_write_is_final_state it differs from the final state in access stamps only. *)
+Theorem C13_writes_land_in_order : forall (es : list (ev bytes)) (h : hstate bytes),
+  pers (hrun h (map (fun e => (e, true)) es))
+  = List.last (map (@Some _) (writes_of (run_trace (hst h) (polling h) es))) (pers h).
+Proof. exact (@content_is_last_offered bytes). Qed.
+
 (* ---- ALL HISTORIES.  With a cache whose writes succeed, after every sequence of lookups, reads,
    polls and Close whose inputs fit the Go field types, the cache content is the document of a
    good state that differs from the CURRENT state in access stamps only. *)
@@ -184,6 +194,7 @@ Print Assumptions C13_flush_after_poll.
 Print Assumptions C13_flush_at_shutdown.
 Print Assumptions C13_writes_are_state_docs.
 Print Assumptions C13_last_write_is_final_state.
+Print Assumptions C13_writes_land_in_order.
 Print Assumptions C13_cache_tracks_state.
 Print Assumptions C13_restart_same.
 Print Assumptions C13_restart_after_history.
